@@ -248,6 +248,11 @@ def replay(ctx, case):
 def gen_float_case(rng, idx):
     n = rng.randint(1, 6)
     ntomo = rng.randint(1, 3)
+    forced = None
+    if idx <= 12:
+        # every run: the dimension FILE forms (IMOD .com, one-line text, table text) occur whatever the seed draws
+        forced = ["com", "file", "com", "tablefile"][idx % 4]
+        ntomo = 1 if forced in ("com", "file") else rng.randint(2, 3)
     parts = []
     for k in range(n):
         ang = [rng.uniform(-360, 360), rng.choice([0.0, 180.0, -180.0, rng.uniform(-180, 180), rng.uniform(0, 180)]),
@@ -298,6 +303,9 @@ def gen_float_case(rng, idx):
             steps.append({"name": "rotate", "ang": [rng.uniform(-360, 360), rng.uniform(-180, 180), rng.uniform(-360, 360)]})
         else:
             steps.append({"name": "flip", "kind": rng.choice(["none", "table", "single"] if ntomo == 1 else ["none", "table"])})
+    if forced is not None:
+        steps.insert(rng.randint(0, len(steps)), {"name": "flip", "kind": "table" if forced == "tablefile" else "single",
+                                                   "form": forced})
     return {"kind": "float", "id": idx, "parts": parts, "dims": dims, "steps": steps}
 
 
@@ -362,7 +370,7 @@ def run_float(ctx, cases):
                     if st["kind"] == "none":
                         motl.flip_handedness()
                     elif st["kind"] == "single":
-                        if (case["id"] + si) % 6 == 5:
+                        if st.get("form") == "com" or (st.get("form") is None and (case["id"] + si) % 6 == 5):
                             # IMOD tilt.com form (FULLIMAGE x y / THICKNESS z), one shared path as well
                             com = os.path.join(ctx.workdir, "tilt.com")
                             with open(com, "w") as fh:
@@ -370,13 +378,13 @@ def run_float(ctx, cases):
                                          "FULLIMAGE %d %d\nIMAGEBINNED 1\nTHICKNESS %d\nRADIAL 0.35 0.035\n$if (-e ./savework) ./savework\n"
                                          % (int(single[0]), int(single[1]), int(single[2])))
                             motl.flip_handedness(com)
-                        elif (case["id"] + si) % 3 == 2:
+                        elif st.get("form") == "file" or (st.get("form") is None and (case["id"] + si) % 3 == 2):
                             with open(shared, "w") as fh:
                                 fh.write(" ".join(repr(float(v)) for v in single) + "\n")
                             motl.flip_handedness(shared)
                         else:
                             motl.flip_handedness(single)
-                    elif (case["id"] + si) % 3 == 2:
+                    elif st.get("form") == "tablefile" or (st.get("form") is None and (case["id"] + si) % 3 == 2):
                         with open(shared, "w") as fh:
                             for r in drows:
                                 fh.write(" ".join(repr(float(v)) for v in r) + "\n")
